@@ -64,8 +64,9 @@ def r1_ordering_primitives(ctx):
             if verdict:
                 ctx.ok(f, c, f"{f.short}: {nm}(...) does not order candidates by name or iteration order", why)
             else:
-                ctx.violated(f, c, f"{f.short}: ordering primitive over candidates: {astx.u(c)[:60]}",
-                             f"{why}: ties between candidates would be decided by their names or by set/dict iteration order")
+                # (the classification reads the construction of the sorted collection off the statements around it)
+                ctx.violated_shape(f, c, f"{f.short}: ordering primitive over candidates: {astx.u(c)[:60]}",
+                                   f"{why}: ties between candidates would be decided by their names or by set/dict iteration order")
     # order comparisons on candidate variables
     for f in prog.iter_functions(("src/votekit/elections/", "src/votekit/utils.py", "src/votekit/models.py")):
         if isinstance(f.node, ast.Lambda):
